@@ -52,6 +52,7 @@ def run(F, rep, tier):
     if scan is None or not restructures(scan):
         rep.missing_anchor(rid, "positive control: scan() must be recognised as building the grid with Vec::push")
     orientation_rule(F, rep)
+    plane_invariant_rule(F, rep)
     rep.explanation += " Recognition fidelity (same table as drawn, same result as the XML form) is geometry over run-time grids and is not decided."
 
 
@@ -117,3 +118,55 @@ def orientation_rule(F, rep):
                       % sorted(fnames[i] for i in union - inter), "%s:%s" % (b["file"], b["line"]))
     else:
         rep.missing_anchor(rid, "assignments of hit policy / orientation / rule count in recognize_orientation")
+
+
+def plane_invariant_rule(F, rep):
+    """R19.5: side condition of the plane audits ("the plane is a non-empty rectangle after finalize()"): Plane::finalize (with the private helpers it calls) must
+    compare the length of the rows with the plane's width and reject an empty plane, and answer Err when the comparison fails.  An absent test is a violation: about
+    two hundred audited index / remove sites in plane.rs argue from this invariant."""
+    from facts import find_hir, strip
+    rid = rep.rule("R19.5", "plane invariant: Plane::finalize rejects an empty plane and rows whose length differs from the plane's width (what the audited plane sites rely on)")
+    P = "dmntk_recognizer::plane::Plane::"
+    h = F.hir.get(P + "finalize")
+    if h is None:
+        rep.missing_anchor(rid, P + "finalize")
+        return
+    bodies = [h]
+    for c, _ in find_hir(h["body"], lambda x: x.get("k") in ("Call", "MethodCall") and (x.get("callee") or "").startswith(P)):
+        hh = F.hir.get(c["callee"])
+        if hh is not None and hh is not h and F.fns.get(c["callee"], {}).get("vis") != "pub":
+            bodies.append(hh)
+
+    def is_len(e):
+        """a row length / the plane width: `x.len()`, `self.width()`, or a local initialised with one of them"""
+        return bool(find_hir(e, lambda y: y.get("k") == "MethodCall" and (y.get("method") in ("len", "width")))) or \
+            (strip(e).get("k") == "Path" and strip(e).get("res") == "local" and strip(e).get("name") in len_locals)
+    len_locals = set()
+    for b in bodies:
+        for st, _ in find_hir(b["body"], lambda x: x.get("k") == "LetStmt" and "e" in x and x["p"].get("k") == "Bind"):
+            if find_hir(st["e"], lambda y: y.get("k") == "MethodCall" and y.get("method") in ("len", "width")):
+                len_locals.add(st["p"]["name"])
+    width_cmp = empty_cmp = False
+    for b in bodies:
+        for x, _ in find_hir(b["body"], lambda x: x.get("k") == "Binary" and x.get("op") in ("==", "!=", "<", ">", "<=", ">=")):
+            a, c = x["a"], x["b"]
+            if is_len(a) and is_len(c):
+                width_cmp = True
+            elif (is_len(a) and strip(c).get("k") == "Lit" and strip(c).get("v") in (0, 1)) or (is_len(c) and strip(a).get("k") == "Lit" and strip(a).get("v") in (0, 1)):
+                empty_cmp = True
+        if find_hir(b["body"], lambda x: x.get("k") == "MethodCall" and x.get("method") == "is_empty"):
+            empty_cmp = True
+    errs = find_hir(h["body"], lambda x: (x.get("k") == "Call" and "Ctor" in (x.get("dk") or "") and (x.get("callee") or "").endswith("Result::Err")) or
+                    (x.get("k") == "Match" and x.get("src") == "TryDesugar"))
+    probs = []
+    if not width_cmp:
+        probs.append("no comparison of a row's length with the plane's width")
+    if not empty_cmp:
+        probs.append("no test for an empty plane")
+    if not errs:
+        probs.append("no Err exit")
+    if probs:
+        rep.violation(rid, "finalize", "Plane::finalize does not establish the invariant the audited plane sites rely on (%s): pivot / the rule-number scans index and remove "
+                      "under the assumption that every row has the plane's width" % "; ".join(probs), "%s:%s" % (h["file"], h["line"]))
+    else:
+        rep.ok(rid, "finalize", "compares row lengths with the width, rejects the empty plane, has an Err exit")
